@@ -150,6 +150,38 @@ def choose_R(rng):
     if flip: s_ = n - s_
     return r_, s_, b32(m), Q, (neg(R) if flip else R)
 
+def forge_r(rng, R, r_):
+    """a triple (r_, s, m, Q) for which the verifier's computed point is exactly R, whatever r_ is: it is valid iff
+    X(R) mod n == r_.  Lets the monitor probe every numeric relation between r and X(R) (r = X + (p - n), X + n mod 2^256,
+    X - n, X + 1 ...), not only the relations honest signing produces."""
+    if not (0 < r_ < n): return None
+    u1 = rng.randrange(0, n); u2 = rng.randrange(1, n)
+    Q = mul(pow(u2, -1, n), sub(R, mulG(u1)))
+    if Q is None: return None
+    s_ = r_ * pow(u2, -1, n) % n; m = u1 * s_ % n
+    if s_ > HALF_N: s_ = n - s_; Q = Q  # (r, n-s) computes -R: same x, still the relation under test
+    return r_, s_, b32(m), Q
+
+FORGE_RELS = [("x", lambda X: X % n), ("x+(p-n)", lambda X: X + (p - n)), ("x-(p-n)", lambda X: X - (p - n)), ("x+n-p", lambda X: X + n - p),
+              ("x+1", lambda X: X % n + 1), ("x-1", lambda X: X % n - 1), ("p-x", lambda X: (p - X) % n), ("n-x", lambda X: (n - X) % n),
+              ("x+2^256-p", lambda X: X + 2**256 - p), ("x+2^256-n_mod_n", lambda X: (X + 2**256 - n) % n), ("2x", lambda X: 2 * X % n),
+              ("x>>1", lambda X: X >> 1), ("x^top", lambda X: X ^ (1 << 255)), ("x-n", lambda X: X - n), ("x+n", lambda X: X + n)]
+
+def wl_forge(ctx, config, scale=1.0):
+    rng = ctx.rng
+    for it in range(int(ctx.n(1500, 40000) * scale)):
+        k = it % 4
+        if k == 0: R = big_x_point(rng)                                  # x in [n, p)
+        elif k == 1:                                                      # x just below n / just below p - n / tiny
+            R = None
+            while R is None: R = lift_x((rng.choice((n - 1, p - n, p - n - 1, 2 * n - p, p, 2**32, 2**128)) - rng.randrange(1, 2**20)) % p if rng.random() < 0.8 else rng.randrange(1, 2**34))
+        else: R = mulG(rng.randrange(1, n))
+        nm, f = FORGE_RELS[rng.randrange(len(FORGE_RELS))] if it % 5 else FORGE_RELS[1]
+        t = forge_r(rng, R, f(R[0]))
+        if t is None: continue
+        r_, s_, m, Q = t
+        verify_case(ctx, config, r_, s_, m, Q, "forge_r:" + nm + (":x>=n" if R[0] >= n else (":x<p-n" if R[0] < p - n else "")))
+
 def wl_verify(ctx, config, scale=1.0):
     rng = ctx.rng
     specials = [1, 2, 3, (n - 1) // 2, (n + 1) // 2, (n - 1) // 2 - 1, (n + 1) // 2 + 1, n - 1, n - 2, 2**128, 2**64, 2**255]
@@ -238,4 +270,5 @@ def run(ctx):
         scale = 1.0 if i == 0 else 0.25
         wl_sign(ctx, config, scale)
         wl_verify(ctx, config, scale)
+        wl_forge(ctx, config, scale)
         wl_recover(ctx, config, scale)
